@@ -61,6 +61,9 @@ SEED_STATES = [
     ['a/', 'b/', 'a/l -> ../b', 'b/l -> ../a'],     # mutual cycle
     ['a/', 'a/b', 'b -> a', '.h/', '.h/a'],
     ['a/', 'a/.h/', 'a/.h/b', 'b -> a/.h'],
+    ['a/', 'a/a/', 'a/a/b', 'a/b -> a'],             # a directory link one real level below the root
+    ['a/', 'a/b/', 'a/b/a', 'b/', 'b/b -> ../a'],      # link into another subtree, no cycle
+    ['a/', 'a/a -> .', 'a/b'],                       # link named like its parent
 ]
 
 
